@@ -30,6 +30,8 @@ NXP = 2
 
 
 def run(chk):
+    global NXP
+    NXP = 4 if chk.tier == "thorough" else 2
     src = load()
     chk.rule_text = "project(block, reprs) == sum_e e (e.v)/(e.e); idempotent; complete set is the identity"
     fpj = src.func(f"{FL}.project")
